@@ -88,6 +88,7 @@ func runSmall(c *core.Ctx) []core.Obligation {
 	smallIntegerKeysByKind(c, b)
 	smallDepthNotCountedTwice(c, b)
 	smallWave17(c, b)
+	smallKeyFoldingAgrees(c, b)
 	smallStringOptionNull(c, b)
 	smallStringOptionMarshaler(c, b)
 	return b.out
@@ -4145,5 +4146,70 @@ func smallWave17(c *core.Ctx, b *ob) {
 				b.addP(props, core.Discharged, key, c.FuncPos(fn), fmt.Sprintf("%d-byte scratch array, the longest duration text is 25 bytes", size))
 			}
 		}
+	}
+}
+
+// S69 — case-insensitive field matching looks the folded key up in an index of folded field
+// names. The two sides must fold with the same function: the decoder folds keys with
+// appendToLower (ASCII lower-casing, and for other runes a representative of the case orbit, so
+// that the long s matches S like in encoding/json); an index built with strings.ToLower agrees
+// with it on ASCII names only — a struct field Ké is not found for the key "ké".
+func smallKeyFoldingAgrees(c *core.Ctx, b *ob) {
+	props := []string{"C02"}
+	key := "field-match:key-and-index-fold-alike"
+	fold := c.Lookup("json.appendToLower")
+	if fold == nil {
+		b.addP(props, core.Undecided, key, "-", "json.appendToLower not found")
+		return
+	}
+	// the key side uses it
+	keySide := false
+	if ds := c.Lookup("json.(decoder).decodeStruct"); ds != nil {
+		for _, ci := range callsIn(ds) {
+			if staticCallee(ci.Common()) == fold {
+				keySide = true
+			}
+		}
+	}
+	// the index side: map updates of the case-insensitive index
+	n, bad := 0, ""
+	for _, f := range c.RepoFunctions() {
+		if f.Blocks == nil || !strings.HasPrefix(shortName(f), "json.") {
+			continue
+		}
+		for _, blk := range f.Blocks {
+			for _, in := range blk.Instrs {
+				mu, ok := in.(*ssa.MapUpdate)
+				if !ok {
+					continue
+				}
+				if id, ok := fieldOfLoad(mu.Map); !ok || id != "json.structType.ficaseIndex" {
+					continue
+				}
+				n++
+				viaFold := false
+				for _, o := range append(origins(mu.Key), mu.Key) {
+					if dependsOn(o, func(x ssa.Value) bool {
+						call, ok := x.(*ssa.Call)
+						return ok && staticCallee(call.Common()) == fold
+					}) {
+						viaFold = true
+					}
+				}
+				if !viaFold {
+					bad = c.InstrPos(mu)
+				}
+			}
+		}
+	}
+	switch {
+	case !keySide:
+		b.addP(props, core.Undecided, key, c.FuncPos(fold), "decodeStruct does not fold keys with appendToLower")
+	case n == 0:
+		b.addP(props, core.Undecided, key, c.FuncPos(fold), "no update of structType.ficaseIndex found")
+	case bad != "":
+		b.addP(props, core.Violation, key, bad, "the case-insensitive index of field names is keyed by something other than appendToLower(name), the function object keys are folded with before the lookup (strings.ToLower agrees with it on ASCII only: it maps 'É' to 'é', appendToLower maps both to one representative of the case orbit): {\"ké\":1} does not reach the field Ké, {\"straße\":2} not the field Straße — encoding/json matches both")
+	default:
+		b.addP(props, core.Discharged, key, c.FuncPos(fold), fmt.Sprintf("%d index update(s) keyed by appendToLower(name), the function keys are folded with", n))
 	}
 }
